@@ -40,7 +40,7 @@ def make_subjects(rt, count, failkey, selfrec=None):
             # the body calls itself synchronously with the same key (the documented escape hatch: the nested
             # call gets a private task); afterwards the outer execution is still the in-flight one
             recstate["done"] = True
-            recstate["inner"] = subs_box[0][tags_box[0].index(tag)](a, b, c=c)
+            recstate["inner"] = subs_box[0][tags_box[0].index(tag)].asynq(a, b, c=c).value()
         x = yield HItem(rt, 0, a, "ok", "dd%d" % len(rt.items))
         y = yield HItem(rt, 1, b, "ok", "dd%d" % len(rt.items))
         if failkey == (a, b, c):
